@@ -13,7 +13,7 @@ from ..evalx import Sym
 from ..oracles import load
 from ..report import Registry, sub, chain
 from ._helpers_rob_b1 import (
-    bind_args, bindings, expand_test, expanded_atoms, inline_helpers, resolve_alias, resolve_callee, resolved_dotted,
+    bind_args, bindings, dominating_guards, expand_test, expanded_atoms, inline_helpers, resolve_alias, resolve_callee, resolved_dotted,
 )
 
 R = Registry(
@@ -886,7 +886,7 @@ def r3(ctx):
                 head_ = g_ga.nodes_for(lp_)[0]
                 body_start = [b for b, lab in g_ga.succ[head_] if lab == "true"]
                 from ..cfg import no_exc
-                if g_ga.must_pass(body_start, [head_], g_ga.nodes_for(st), edge_ok=no_exc) is None:
+                if set(g_ga.nodes_for(st)) & set(body_start) or g_ga.must_pass(body_start, [head_], g_ga.nodes_for(st), edge_ok=no_exc) is None:
                     conv = st.targets[0].value.id
     ctx.check(conv is not None, f"{ga0.key}:convert",
               "per-object actions are not generated for exactly the members of `cycles`",
@@ -933,9 +933,16 @@ def r3(ctx):
     registering = sorted(
         f.key.split("::")[1] for f in ctx.index.all_functions(ga.module)
         if f.name == "per_state_flush_actions" and any((call_name(c) or "").rsplit(".", 2)[-2:] in (["dependencies", "add"], ["dependencies", "update"]) for c in calls_in(f.node)))
+    # a loop over the cycle members that performs the conversion counts as the conversion (its head dominates
+    # what follows even though the CFG admits zero iterations)
+    conv_dom = set(conv_nodes)
+    for c in conv_calls:
+        for anc in _ancestors(pm_ga, c):
+            if isinstance(anc, ast.For) and (dotted(anc.iter) or "") in cyc_names:
+                conv_dom.update(g_ga.nodes_for(anc))
     w_before = None
     for sn in snap_nodes:
-        w_before = w_before or g_ga.always_preceded(sn, conv_nodes)
+        w_before = w_before or g_ga.always_preceded(sn, conv_dom)
     later = sorted((set(conv_nodes) & g_ga.reachable(snap_nodes)) - set(snap_nodes))
     if not registering:
         ctx.ok(f"{ga0.key}:rewrite-after-convert", "no per_state_flush_actions() registers dependency edges: order is immaterial")
@@ -1025,8 +1032,20 @@ def r4(ctx):
     pu = ctx.func(f"{PERS}::_post_update")
     callers = _callers(ctx, orm_modules, "_post_update", ("persistence.", "orm_persistence.", "util.preloaded.orm_persistence.", ""))
     callers = [(f, c) for f, c in callers if not (call_name(c) == "_post_update" and f.module.relpath != PERS)]
-    names = sorted({f.key for f, c in callers})
-    ctx.check(names == [f"{UOW}::_PostUpdateAll.execute"], f"{PERS}::_post_update:callers",
+    owner_key = f"{UOW}::_PostUpdateAll.execute"
+
+    def _owned(f, depth=0):
+        """the owner itself, or a private helper of the owner's class all of whose callers are owned (T-OWN through
+        the call graph: extracting part of _PostUpdateAll.execute into a method does not create a second emitter)"""
+        if f.key == owner_key:
+            return True
+        if depth >= 2 or not f.name.startswith("_") or f.name.startswith("__") or f.cls is None or f.cls.name != "_PostUpdateAll":
+            return False
+        cs = _callers(ctx, orm_modules, f.name)
+        return bool(cs) and all(_owned(cf, depth + 1) for cf, _ in cs)
+
+    names = sorted({owner_key if _owned(f) else f.key for f, c in callers})
+    ctx.check(names == [owner_key], f"{PERS}::_post_update:callers",
               f"persistence._post_update is called from {names}; expected only _PostUpdateAll.execute",
               "single caller _PostUpdateAll.execute", pu.loc)
     # (2) _emit_post_update_statements only from _post_update
@@ -1043,20 +1062,40 @@ def r4(ctx):
               f"_DependencyProcessor._post_update emits directly ({emits}) / is overridden by {overrides} / does not register",
               "defers to uow.register_post_update", dp.loc)
     # (4) the action handles exactly the states whose delete flag equals its own
-    ex = ctx.func(f"{UOW}::_PostUpdateAll.execute")
+    ex = inline_helpers(ctx, ctx.func(f"{UOW}::_PostUpdateAll.execute"))
     filt = False
+    exb4 = bindings(ex.node)
+    g4 = ctx.cfg(ex.node)
+    pm4 = parent_map(ex.node)
+    # selections: comprehension `[s for s in X if c]` (guards = its ifs) or loop `for s in X: if c: out.append(s)`
+    # / `if not c: continue` (guards = branch outcomes dominating the append)
+    selections = []   # (element variable, [(test, polarity)])
     for n in walk_local(ex.node):
         if isinstance(n, (ast.ListComp, ast.GeneratorExp, ast.SetComp)):
             for gen in n.generators:
-                for cond in gen.ifs:
-                    if isinstance(cond, ast.Compare) and len(cond.ops) == 1 and isinstance(cond.ops[0], (ast.Eq, ast.Is)):
-                        sides = {unparse(cond.left).replace(" ", ""), unparse(cond.comparators[0]).replace(" ", "")}
-                        tv = gen.target.id if isinstance(gen.target, ast.Name) else "?"
-                        if sides == {f"uow.states[{tv}][0]", "self.isdelete"}:
-                            filt = True
+                if isinstance(gen.target, ast.Name):
+                    selections.append((gen.target.id, [(t, True) for t in gen.ifs]))
+        elif isinstance(n, ast.Call) and isinstance(n.func, ast.Attribute) and n.func.attr in ("append", "add") and len(n.args) == 1 \
+                and isinstance(n.args[0], ast.Name):
+            st_ = n
+            while st_ is not None and not isinstance(st_, ast.stmt):
+                st_ = pm4.get(st_)
+            if any(isinstance(a, ast.For) and isinstance(a.target, ast.Name) and a.target.id == n.args[0].id for a in _ancestors(pm4, n)):
+                selections.append((n.args[0].id, dominating_guards(g4, pm4, ex.node, n, st_)))
+    for tv, guards in selections:
+        for atext, pol in expanded_atoms(ctx, ex, guards, exb4):
+            try:
+                cond = ast.parse(atext, mode="eval").body
+            except SyntaxError:
+                continue
+            if pol and isinstance(cond, ast.Compare) and len(cond.ops) == 1 and isinstance(cond.ops[0], (ast.Eq, ast.Is)):
+                sides = {(resolved_dotted(ex.node, x, exb4) or unparse(resolve_alias(ex.node, x, exb4))).replace(" ", "")
+                         for x in (cond.left, cond.comparators[0])}
+                if sides == {f"uow.states[{tv}][0]", "self.isdelete"}:
+                    filt = True
     passes = False
     for c in calls_named(ex.node, "_post_update"):
-        passes = len(c.args) >= 2 and dotted(c.args[0]) == "self.mapper"
+        passes = len(c.args) >= 2 and resolved_dotted(ex.node, c.args[0], exb4) == "self.mapper"
     ctx.check(filt and passes, f"{ex.key}:filters-by-isdelete",
               "_PostUpdateAll.execute does not restrict the states to those whose delete flag equals self.isdelete",
               "states filtered on uow.states[s][0] == self.isdelete", ex.loc)
@@ -1268,3 +1307,147 @@ R.mutant("benign-delete-all-states-bound-to-local", UOW,
              "        doomed = uow.states_for_mapper_hierarchy(self.mapper, True, False)\n        util.preloaded.orm_persistence._delete_obj(\n            self.mapper,\n            doomed,\n            uow,\n        )"), None)
 R.mutant("benign-remove-state-actions-rename-local", UOW,
          sub("        isdelete = self.states[state][0]\n\n        self.states[state] = (isdelete, True)\n", "        was_delete = self.states[state][0]\n\n        self.states[state] = (was_delete, True)\n"), None)
+
+# ------------------------------------------------------------------ rob-B1: refactoring families (each benign shape has
+# a breaking twin in the same shape, so the normalisation cannot hide a defect)
+from ._helpers_rob_b1 import ast_edit, t_alias, t_extract_else, t_guard_clause, t_guard_clause_no_return, t_invert_ifs  # noqa: E402
+
+# R1/R2 (interpreter): inverted branches, guard clause + return, alias of the edge set / of a constructor
+# argument / of the edge list, branch moved into a helper method
+R.mutant("benign-o2m-aggregate-inverted-and-aliased", DEP,
+         ast_edit("_OneToManyDP.per_property_dependencies", t_invert_ifs, t_alias("self.mapper.primary_base_mapper", "child_base_mapper")), None)
+R.mutant("o2m-aggregate-inverted-edge-reversed", DEP,
+         chain(sub(O2M_PLAIN_OLD, "                    (parent_deletes, child_deletes),\n                    (before_delete, child_saves),\n"),
+               ast_edit("_OneToManyDP.per_property_dependencies", t_invert_ifs, t_alias("self.mapper.primary_base_mapper", "child_base_mapper"))), "C31-R1")
+R.mutant("benign-m2o-perstate-all-branches-inverted", DEP, ast_edit("_ManyToOneDP.per_state_dependencies", t_invert_ifs), None)
+R.mutant("m2o-perstate-inverted-save-order-reversed", DEP,
+         chain(sub("                    [(child_action, after_save), (after_save, save_parent)]\n", "                    [(save_parent, after_save), (after_save, child_action)]\n"),
+               ast_edit("_ManyToOneDP.per_state_dependencies", t_invert_ifs)), "C31-R2")
+R.mutant("benign-m2o-aggregate-guard-clause", DEP, ast_edit("_ManyToOneDP.per_property_dependencies", t_guard_clause), None)
+R.mutant("m2o-aggregate-guard-clause-falls-through", DEP, ast_edit("_ManyToOneDP.per_property_dependencies", t_guard_clause_no_return), "C31-R1")
+R.mutant("benign-m2m-edge-set-aliased", DEP, ast_edit("_ManyToManyDP.per_property_dependencies", t_alias("uow.dependencies", "deps")), None)
+R.mutant("m2m-edge-set-aliased-edge-dropped", DEP,
+         chain(sub("                (parent_saves, after_save),\n                (child_saves, after_save),\n                (after_save, child_deletes),\n",
+                   "                (parent_saves, after_save),\n                (after_save, child_deletes),\n"),
+               ast_edit("_ManyToManyDP.per_property_dependencies", t_alias("uow.dependencies", "deps"))), "C31-R1")
+R.mutant("benign-o2m-plain-branch-in-helper-method", DEP, ast_edit("_OneToManyDP.per_property_dependencies", t_extract_else("_plain_dependencies")), None)
+R.mutant("o2m-plain-branch-in-helper-method-edge-reversed", DEP,
+         ast_edit("_OneToManyDP.per_property_dependencies", t_extract_else("_plain_dependencies", reverse_first_pair=True)), "C31-R1")
+R.mutant("benign-o2m-perstate-edge-list-in-local", DEP,
+         sub(_O2M_DEL, "            ordering = [(before_delete, child_action), (child_action, delete_parent)]\n            uow.dependencies.update(ordering)\n"), None)
+R.mutant("benign-m2o-post-update-flag-in-local", DEP,
+         ast_edit("_ManyToOneDP.per_property_dependencies", t_alias("self.post_update", "uses_post_update")), None)
+
+# R3: cycle handling extracted into a method (edge set aliased, endpoints unpacked), conversion by loop,
+# guard clauses with `continue`, returned set spelled with `-`, execute() with locals and inverted choice
+_REWRITE_OLD = (
+    "            for edge in list(self.dependencies):\n"
+    "                if (\n"
+    "                    None in edge\n"
+    "                    or edge[0].disabled\n"
+    "                    or edge[1].disabled\n"
+    "                    or cycles.issuperset(edge)\n"
+    "                ):\n"
+    "                    self.dependencies.remove(edge)\n"
+    "                elif edge[0] in cycles:\n"
+    "                    self.dependencies.remove(edge)\n"
+    "                    for dep in convert[edge[0]]:\n"
+    "                        self.dependencies.add((dep, edge[1]))\n"
+    "                elif edge[1] in cycles:\n"
+    "                    self.dependencies.remove(edge)\n"
+    "                    for dep in convert[edge[1]]:\n"
+    "                        self.dependencies.add((edge[0], dep))\n"
+)
+_HELPER_AT = "    def execute(self) -> None:\n        postsort_actions = self._generate_actions()\n"
+
+
+def _extracted(add_source="(per_state, after)", add_target="(before, per_state)", first_test="before in cycles"):
+    helper = (
+        "    def _break_cycles(self, cycles):\n"
+        "        convert = {\n            rec: set(rec.per_state_flush_actions(self)) for rec in cycles\n        }\n"
+        "        dependencies = self.dependencies\n"
+        "        for edge in list(dependencies):\n"
+        "            before, after = edge\n"
+        "            if (\n                None in edge\n                or before.disabled\n                or after.disabled\n"
+        "                or cycles.issuperset(edge)\n            ):\n"
+        "                dependencies.remove(edge)\n"
+        f"            elif {first_test}:\n"
+        "                dependencies.remove(edge)\n"
+        "                for per_state in convert[before]:\n"
+        f"                    dependencies.add({add_source})\n"
+        "            elif after in cycles:\n"
+        "                dependencies.remove(edge)\n"
+        "                for per_state in convert[after]:\n"
+        f"                    dependencies.add({add_target})\n\n"
+    )
+    return chain(sub(_CONV + "\n            # rewrite the existing dependencies to point to\n            # the per-state actions for those per-mapper actions\n"
+                             "            # that were broken up.\n" + _REWRITE_OLD, "            self._break_cycles(cycles)\n"),
+                 sub(_HELPER_AT, helper + _HELPER_AT))
+
+
+R.mutant("benign-cycle-handling-extracted-method", UOW, _extracted(), None)
+R.mutant("cycle-handling-extracted-wrong-endpoint", UOW, _extracted(add_source="(per_state, before)"), "C31-R3")
+R.mutant("cycle-handling-extracted-target-side-keeps-aggregate", UOW, _extracted(add_target="(before, after)"), "C31-R3")
+R.mutant("cycle-handling-extracted-source-test-on-target", UOW, _extracted(first_test="after in cycles"), "C31-R3")
+R.mutant("benign-conversion-by-loop", UOW,
+         sub(_CONV, "            convert = {}\n            for rec in cycles:\n                convert[rec] = set(rec.per_state_flush_actions(self))\n"), None)
+R.mutant("conversion-by-loop-skips-members", UOW,
+         sub(_CONV, "            convert = {}\n            for rec in cycles:\n                if rec.disabled:\n                    continue\n"
+                    "                convert[rec] = set(rec.per_state_flush_actions(self))\n"), "C31-R3")
+_REWRITE_CONTINUE = (
+    "            for edge in list(self.dependencies):\n"
+    "                source, target = edge\n"
+    "                if None in edge or source.disabled or target.disabled:\n"
+    "                    self.dependencies.remove(edge)\n"
+    "                    continue\n"
+    "                if source not in cycles and target not in cycles:\n"
+    "                    continue\n"
+    "                self.dependencies.remove(edge)\n"
+    "                if target not in cycles:\n"
+    "                    self.dependencies.update((dep, target) for dep in convert[source])\n"
+    "                elif source not in cycles:\n"
+    "                    self.dependencies.update((source, dep) for dep in convert[target])\n"
+)
+R.mutant("benign-rewrite-loop-guard-clauses-and-comprehensions", UOW, sub(_REWRITE_OLD, _REWRITE_CONTINUE), None)
+R.mutant("rewrite-loop-guard-clauses-intra-cycle-edge-kept", UOW,
+         sub(_REWRITE_OLD, _REWRITE_CONTINUE.replace("                if source not in cycles and target not in cycles:\n                    continue\n",
+                                                     "                if (source in cycles) == (target in cycles):\n                    continue\n")), "C31-R3")
+R.mutant("rewrite-loop-guard-clauses-sides-crossed", UOW,
+         sub(_REWRITE_OLD, _REWRITE_CONTINUE.replace("(dep, target) for dep in convert[source]", "(dep, target) for dep in convert[target]")), "C31-R3")
+_RET_OLD = "        return {\n            a for a in self.postsort_actions.values() if not a.disabled\n        }.difference(cycles)\n"
+R.mutant("benign-return-spelled-with-minus", UOW,
+         sub(_RET_OLD, "        enabled = {\n            a for a in self.postsort_actions.values() if not a.disabled\n        }\n        return enabled - cycles\n"), None)
+R.mutant("return-keeps-cycle-members", UOW,
+         sub(_RET_OLD, "        enabled = {\n            a for a in self.postsort_actions.values() if not a.disabled\n        }\n        return enabled\n"), "C31-R3")
+_EXEC_OLD = (
+    "        if self.cycles:\n"
+    "            for subset in topological.sort_as_subsets(\n                self.dependencies, postsort_actions\n            ):\n"
+    "                set_ = set(subset)\n                while set_:\n                    n = set_.pop()\n                    n.execute_aggregate(self, set_)\n"
+    "        else:\n"
+    "            for rec in topological.sort(self.dependencies, postsort_actions):\n                rec.execute(self)\n"
+)
+_EXEC_NEW = (
+    "        edges = self.dependencies\n"
+    "        has_cycles = bool(self.cycles)\n"
+    "        if not has_cycles:\n"
+    "            ordered = topological.sort(edges, postsort_actions)\n"
+    "            for rec in ordered:\n                rec.execute(self)\n"
+    "            return\n"
+    "        for subset in topological.sort_as_subsets(edges, postsort_actions):\n"
+    "            set_ = set(subset)\n            while set_:\n                n = set_.pop()\n                n.execute_aggregate(self, set_)\n"
+)
+R.mutant("benign-execute-locals-and-early-return", UOW, sub(_EXEC_OLD, _EXEC_NEW), None)
+R.mutant("execute-locals-and-early-return-choice-inverted", UOW, sub(_EXEC_OLD, _EXEC_NEW.replace("if not has_cycles:", "if has_cycles:")), "C31-R3")
+R.mutant("execute-locals-sorts-presort-edges", UOW, sub(_EXEC_OLD, _EXEC_NEW.replace("edges = self.dependencies\n", "edges = set(self.dependencies)\n", 1)), "C31-R3")
+
+# R4: the state filter of _PostUpdateAll.execute as a loop with a guard clause / in a helper method
+_PU_FILTER = "        states = [s for s in states if uow.states[s][0] == self.isdelete]\n"
+R.mutant("benign-postupdate-filter-by-loop", UOW,
+         sub(_PU_FILTER, "        mine = []\n        for s in states:\n            if uow.states[s][0] != self.isdelete:\n                continue\n"
+                         "            mine.append(s)\n        states = mine\n"), None)
+R.mutant("postupdate-filter-by-loop-inverted", UOW,
+         sub(_PU_FILTER, "        mine = []\n        for s in states:\n            if uow.states[s][0] == self.isdelete:\n                continue\n"
+                         "            mine.append(s)\n        states = mine\n"), "C31-R4")
+R.mutant("benign-postupdate-emit-in-private-helper", UOW,
+         chain(sub("        persistence._post_update(self.mapper, states, uow, cols)\n", "        self._emit(persistence, states, uow, cols)\n"),
+               sub("class _SaveUpdateAll(_PostSortRec):\n", "    def _emit(self, persistence, states, uow, cols):\n        persistence._post_update(self.mapper, states, uow, cols)\n\n\nclass _SaveUpdateAll(_PostSortRec):\n")), None)
